@@ -15,6 +15,11 @@ class Broken(X.AnalysisBroken):
     pass
 
 
+def _applied():
+    from . import anchors as A
+    return list(A.APPLIED)
+
+
 class RuleCtx:
     def __init__(self, ctx, rid, text):
         self.ctx = ctx
@@ -130,6 +135,7 @@ class Ctx:
                            "violations": len(r.viol), "instance_list": [str(i) for i in r.instances][:60],
                            "notes": r.notes[:20]} for r in self.rules],
                 "analysed": self.analysed,
+                "renamed_anchors": ["%s: %s is the reference tree's %s" % a for a in _applied()],
                 "known_findings_matched": sorted(seen_keys),
                 "known_findings_not_reproduced": stale,
             },
@@ -146,6 +152,8 @@ class Ctx:
         for r in self.rules:
             print("[%s] %-9s instances=%d obligations=%d discharged=%d violations=%d  %s" %
                   (self.pid, r.rid, len(r.instances), r.obligations, r.discharged, len(r.viol), r.text[:90]))
+        for a in _applied():
+            print("NOTE: %s: function %s located as the reference tree's %s by its structure (rename)" % a)
         for l in lines:
             print(l)
         for k in stale:
